@@ -131,6 +131,21 @@ CORPUS_CASES = [
     ({"type": "record", "name": "X", "fields": [{"name": "Y", "type": {"type": "record", "name": "a.Y", "fields": [
         {"name": "e", "type": {"type": "enum", "name": "X", "symbols": ["P", "Q"]}}, {"name": "r", "type": "X"}]}}]},
      {"Y": {"e": "Q", "r": "Q"}}),
+] + [
+    # records given BY NAME in a union, a datum that conforms to several of them: the branch sharing most fields wins
+    ({"type": "record", "name": "geo.Holder", "fields": [
+        {"name": "c", "type": {"type": "record", "name": "geo.Circle", "fields": [{"name": "x", "type": "int"}, {"name": "r", "type": "int"}]}},
+        {"name": "g", "type": {"type": "record", "name": "geo.Ring", "fields": [{"name": "x", "type": "int"}, {"name": "r", "type": "int"},
+                                                                               {"name": "inner", "type": ["null", "int"], "default": None}]}},
+        {"name": "u", "type": ["null", "geo.Circle", "geo.Ring"]}, {"name": "l", "type": {"type": "array", "items": ["Ring", "Circle"]}}]},
+     {"c": {"x": 1, "r": 2}, "g": {"x": 1, "r": 2, "inner": 3}, "u": {"x": 5, "r": 6, "inner": 7}, "l": [{"x": 5, "r": 6, "inner": 7}, {"x": 1, "r": 1}]}),
+] + [
+    # hints name branches by FULL name: a namespaced type listed before a null-namespace type of the same short name
+    ([{"type": "record", "name": "a.Event", "fields": [{"name": "v", "type": "int"}]}, {"type": "record", "name": "Event", "fields": [{"name": "v", "type": "int"}]}], d)
+    for d in [("Event", {"v": 3}), ("a.Event", {"v": 3}), {"-type": "Event", "v": 4}, {"-type": "a.Event", "v": 4}, {"v": 5}]
+] + [
+    ([{"type": "enum", "name": "a.Kind", "symbols": ["A", "B"]}, {"type": "enum", "name": "Kind", "symbols": ["B", "A"]},
+      {"type": "fixed", "name": "b.Kind", "size": 1}], d) for d in [("Kind", "A"), ("a.Kind", "A"), ("b.Kind", b"A"), "B"]
 ]
 
 
